@@ -64,7 +64,15 @@ func TestVerif_C11Remote(t *testing.T) {
 		}
 		tgt.limits = g
 		panics := 0
-		for mi := 0; mi < 1+r.intn(4); mi++ {
+		// every fifth history: after the first message the next hop goes away gracefully - it answers on the
+		// connections it has (RSET: 250, MAIL: 421) and accepts no new ones
+		goneAway := serverUp && ci%5 == 4
+		nMsgs := 1 + r.intn(4)
+		if goneAway && nMsgs < 2 {
+			nMsgs = 2
+		}
+		livePort := smtpPort
+		for mi := 0; mi < nMsgs; mi++ {
 			reqtls := r.chance(35)
 			if be != nil {
 				be.RcptErr, be.DataErr, be.MailErr = map[string]error{}, nil, nil
@@ -76,6 +84,16 @@ func TestVerif_C11Remote(t *testing.T) {
 				}
 				if r.chance(20) {
 					be.DataErr = &smtp.SMTPError{Code: 451, EnhancedCode: smtp.EnhancedCode{4, 0, 0}, Message: "later"}
+				}
+				if goneAway && mi == 0 {
+					be.RcptErr, be.DataErr, be.MailErr = map[string]error{}, nil, nil // the first message goes through and leaves its connection in the pool
+				}
+				if goneAway && mi >= 1 {
+					be.MailErr = &smtp.SMTPError{Code: 421, EnhancedCode: smtp.EnhancedCode{4, 3, 2}, Message: "shutting down"}
+					if l, err := net.Listen("tcp", "127.0.0.1:0"); err == nil { // a port nothing listens on
+						smtpPort = fmt.Sprint(l.Addr().(*net.TCPAddr).Port)
+						l.Close()
+					}
 				}
 			}
 			// a release of a permit that is not held panics in the limiter: an observation, not a crash
@@ -118,6 +136,7 @@ func TestVerif_C11Remote(t *testing.T) {
 				}
 			}()
 		}
+		smtpPort = livePort
 		// every permit must be back: the two of each scope can be taken at once
 		leaks := 0
 		ip := net.IPv4(127, 0, 0, 1)
